@@ -664,6 +664,57 @@ FRESH_TEXTS = [
 FRESH_OTHER = "loop: add x1, x1, x1\nstart: nop\nl: NOP\n.data\nv: .byte 1\nx: .word 2\n"
 
 
+SEQ_TEXTS = FRESH_TEXTS + [FRESH_OTHER, "", ".data\nq: .word 5\n", "li x1, 0x12345\nla x2, q\n.data\nq: .half 1\n", "a: nop\n" * 1 + "nop\n" * 9 + "jal x0, a\n"]
+
+
+def seq_case(xi, yi, via):
+    """Text Y assembled into a state that already holds program X (via load_program, or by handing the state to the assembler a
+    second time): the instruction memory holds exactly what Y denotes — the listing of a fresh state that only assembled Y."""
+    from architecture_simulator.isa.riscv.riscv_parser import RiscvParser
+    from architecture_simulator.simulation.riscv_simulation import RiscvSimulation
+
+    def put(sim, text):
+        if via == "load_program":
+            sim.load_program(text)
+        else:
+            RiscvParser().parse(program=text, state=sim.state)
+
+    def listing(sim):
+        im = sim.state.instruction_memory
+        return [(a, t, tuple(asm.fields_full(im.read_instruction(a)))) for a, t in im.get_representation()]
+
+    fresh = RiscvSimulation()
+    put(fresh, SEQ_TEXTS[yi])
+    used = RiscvSimulation()
+    put(used, SEQ_TEXTS[xi])
+    put(used, SEQ_TEXTS[yi])
+    a, b = listing(used), listing(fresh)
+    if a != b:
+        k = next((i for i in range(min(len(a), len(b))) if a[i] != b[i]), min(len(a), len(b)))
+        return (f"assembled behind {SEQ_TEXTS[xi]!r} ({via}), {SEQ_TEXTS[yi]!r} gives {len(a)} instructions, entry {k}: {a[k] if k < len(a) else None}; "
+                f"on a fresh state {len(b)} instructions, entry {k}: {b[k] if k < len(b) else None}")
+    if used.has_instructions() != fresh.has_instructions():
+        return f"has_instructions() is {used.has_instructions()} behind {SEQ_TEXTS[xi]!r}, {fresh.has_instructions()} on a fresh state"
+    return None
+
+
+def seq_shard(shard):
+    xi = shard
+    p = Partial()
+    for yi in range(len(SEQ_TEXTS)):
+        for via in ("load_program", "parser"):
+            p.evaluations += 1
+            p.nontrivial += 1
+            p.counters["assembled-behind-another-program"] += 1
+            try:
+                d = seq_case(xi, yi, via)
+            except Exception as e:  # noqa
+                d = f"{SEQ_TEXTS[xi]!r} then {SEQ_TEXTS[yi]!r} ({via}): {type(e).__name__}: {e}"
+            if d:
+                p.violation(dict(oracle="assembled-behind-another-program", field="instruction-memory", via=via), dict(kind="seq", xi=xi, yi=yi, via=via), d, size=(len(SEQ_TEXTS[yi]), xi, yi))
+    return p
+
+
 def fresh_items():
     """What the process did before must not change what a text assembles to (each scenario in a fresh interpreter)."""
     out = []
@@ -684,6 +735,9 @@ def replay(case):
         _n, d = full_memory_case(case["short"], case["variant"])
         return [(dict(oracle="full-instruction-memory", field="layout"), d)] if d else []
     k = case["kind"]
+    if k == "seq":
+        d = seq_case(case["xi"], case["yi"], case["via"])
+        return [(dict(oracle="assembled-behind-another-program", field="instruction-memory", via=case["via"]), d)] if d else []
     if k == "layout":
         seq, labs, endlab, tg, off = case["case"]
         c = (tuple(seq), tuple(labs), endlab, {int(a): b for a, b in tg.items()}, off)
@@ -773,6 +827,10 @@ def run(ctx):
     ctx.space("assembler-history-fresh-interpreters", part, t0, texts=len(FRESH_TEXTS), preludes=5,
               note="each scenario runs in its own interpreter; compared with the same text assembled in a pristine interpreter")
     ctx.require("fresh-interpreter-differential")
+    t0 = time.time()
+    part = pmap(seq_shard, list(range(len(SEQ_TEXTS))))
+    ctx.space("assembled-behind-another-program", part, t0, texts=len(SEQ_TEXTS), via=["load_program", "RiscvParser.parse on the same state"])
+    ctx.require("assembled-behind-another-program")
     t0 = time.time()
     part = pmap(pseudo_shard, [(i, 32) for i in range(32)])
     ctx.space("pseudo-instruction-effects", part, t0, cases=len(pseudo_cases()))
